@@ -29,6 +29,9 @@ func runC13(c *Ctx) {
 	readerNextFrameRules(c, "C13")
 	// the first-fragment decision depends on fseq, which the resets must clear
 	c18Writer(c)
+	// a compressed message reaches the decompressor through the suffixed reader
+	c12Suffixed(c)
+	writerMethodRules(c, "C13")
 }
 
 func c13RsvLayout(c *Ctx) {
